@@ -7,7 +7,7 @@ cd "$(dirname "$0")"
 PROPS=("$@")
 # PROP@N starts at run index N (C09: enumerated placements from 0, random VM runs from 40320, Eval runs from 80320;
 # C18: sampled multi-fault runs from 12)
-[ ${#PROPS[@]} -eq 0 ] && PROPS=(C03 C04 C06 C07 C08 C09 C09@47880 C09@87880 C10 C12 C14 C18 C18@12)
+[ ${#PROPS[@]} -eq 0 ] && PROPS=(C03 C04 C06 C07 C08 C09 C09@50400 C09@90400 C10 C12 C14 C18 C18@12)
 RUNS=${SELFTEST_RUNS:-48}
 SEED=${VERIF_SEED:-1}
 tmp=$(mktemp -d)
